@@ -188,7 +188,7 @@ def pool_map(fn, items, procs=None, chunksize=1):
         return pool.map(fn, items, chunksize=chunksize)
 
 
-def pool_imap(fn, items, procs=None, chunksize=1):
+def pool_imap(fn, items, procs=None, chunksize=1, ordered=False):
     import multiprocessing as mp
 
     items = list(items)
@@ -199,5 +199,5 @@ def pool_imap(fn, items, procs=None, chunksize=1):
         return
     ctx = mp.get_context("fork")
     with ctx.Pool(procs) as pool:
-        for r in pool.imap_unordered(fn, items, chunksize=chunksize):
+        for r in (pool.imap if ordered else pool.imap_unordered)(fn, items, chunksize=chunksize):
             yield r
